@@ -37,3 +37,22 @@ for c in man["checks"]:
           cov.get("evaluations", "?"), cov.get("distinct_nontrivial", "?"), fixed.get(p, 0), found.get(p, 0), ("%d of %d" % (s[1], s[0])) if s else "-"))
 for n in man.get("not_applicable", []):
     print("| %s | not claimed | | | %d | %d | |" % (n["property_id"], fixed.get(n["property_id"], 0), found.get(n["property_id"], 0)))
+
+if "--seeds" in __import__("sys").argv:
+    print()
+    print("| seeded change | what it breaks / what it needs to manifest | existing tests | demo | quick check |")
+    print("|---|---|---|---|---|")
+    for d in sorted(glob.glob(os.path.join(ROOT, "seeded", "*"))):
+        try:
+            m = json.load(open(os.path.join(d, "meta.json")))
+        except Exception:
+            continue
+        c = m.get("confirmed_by_seed_validate") or {}
+        first = ""
+        for l in c.get("check_lines") or []:
+            if l.startswith("  ->"):
+                first = l[5:].split(":")[0] + ":" + l[5:].split(":")[1] if ":" in l[5:] else l[5:60]
+                break
+        print("| %s | %s — needs: %s | %s | fails with / passes without | %s |" % (
+            os.path.basename(d), (m.get("summary") or "")[:220].replace("|", "/"), (str(m.get("needs_to_manifest")) or "")[:260].replace("|", "/"),
+            "pass" if c.get("existing_tests_pass") else "?", ("VIOLATION (%s)" % first[:60]) if c.get("caught") else "not reported"))
